@@ -32,6 +32,22 @@ KERNELS = [
     ("utils/symbol.c", "guess_kernel_base", "guess_kernel_base", ["addr"]),
 ]
 
+# conditions of `if` statements inside larger functions: (file, function, coq name, coq args, k) translates the
+# condition of the k-th IfStmt (pre-order, 0-based) of the function into a Gallina bool; field reads through ANY
+# pointer variable are inputs named <var>_<field>[_<field>...]
+CONDS = [
+    ("utils/symbol.c", "find_map", "map_contains", ["map_start", "addr", "map_end"], 1),
+    ("utils/session.c", "find_task_session", "ref_contains", ["ref_start", "timestamp", "ref_end"], 0),
+    ("utils/session.c", "session_find_dlsym", "dl_later", ["pos_time", "timestamp"], 0),
+    ("utils/session.c", "session_add_dlopen", "dl_insert_before", ["pos_time", "timestamp"], 1),
+    ("utils/session.c", "find_session", "fs_pid_gt", ["iter_pid", "pid"], 0),
+    ("utils/session.c", "find_session", "fs_pid_lt", ["iter_pid", "pid"], 1),
+    ("utils/session.c", "find_session", "fs_start_gt", ["iter_start_time", "timestamp"], 2),
+    ("utils/session.c", "create_session", "cs_pid_gt", ["s_pid", "msg_task_pid"], 0),
+    ("utils/session.c", "create_session", "cs_pid_lt", ["s_pid", "msg_task_pid"], 1),
+    ("utils/session.c", "create_session", "cs_start_gt", ["s_start_time", "msg_task_time"], 2),
+]
+
 INT_TYPES = {
     "unsigned long": (False, 64), "unsigned long long": (False, 64), "uint64_t": (False, 64),
     "unsigned int": (False, 32), "unsigned": (False, 32), "uint32_t": (False, 32),
@@ -128,6 +144,20 @@ class Tr:
             if name in self.scalar:
                 return self.inp(self.scalar[name])
             raise Unsupported("reference to %r" % name)
+        if k == "MemberExpr" and getattr(self, "anyptr", False):
+            path = [n["name"]]
+            b = n
+            while True:
+                inner = strip_casts(b["inner"][0])
+                if inner["kind"] == "MemberExpr" and not b.get("isArrow"):
+                    path.append(inner["name"])
+                    b = inner
+                    continue
+                break
+            if b.get("isArrow") and inner["kind"] == "DeclRefExpr" and is_ptr(inner):
+                ity(n)
+                return self.inp("_".join([inner["referencedDecl"]["name"]] + path[::-1]))
+            raise Unsupported("member access that is not var->field[.field]")
         if k == "MemberExpr":
             base = strip_casts(n["inner"][0])
             if base["kind"] == "DeclRefExpr" and base["referencedDecl"]["name"] in self.ptr and n.get("isArrow"):
@@ -269,6 +299,30 @@ class Tr:
         return "Definition %s (%s : Z) : Z :=\n  %s.\n" % (coqname, " ".join(self.args), term)
 
 
+def if_stmts(node, out):
+    if node.get("kind") == "IfStmt":
+        out.append(node)
+    for c in node.get("inner", []) or []:
+        if isinstance(c, dict):
+            if_stmts(c, out)
+    return out
+
+
+def cond_kernel(fn, coqname, args, k):
+    ifs = if_stmts(fn, [])
+    if k >= len(ifs):
+        raise Unsupported("%s has only %d if statements (wanted #%d)" % (fn["name"], len(ifs), k))
+    tr = Tr(fn, args)
+    tr.anyptr = True
+    for p in [c for c in fn.get("inner", []) if c["kind"] == "ParmVarDecl" and not is_ptr(c)]:
+        tr.scalar[p["name"]] = p["name"]
+    term = tr.cond(ifs[k]["inner"][0])
+    missing = [a for a in args if a not in tr.used]
+    if missing:
+        raise Unsupported("condition #%d of %s no longer depends on %s" % (k, fn["name"], missing))
+    return "Definition %s (%s : Z) : bool :=\n  %s.\n" % (coqname, " ".join(args), term)
+
+
 def ast_of(path, fname):
     cmd = ["clang", "-fsyntax-only", "-Xclang", "-ast-dump=json", "-Xclang", "-ast-dump-filter=" + fname,
            "-std=gnu11", "-D_GNU_SOURCE", "-w", "-iquote", REPO, "-iquote", os.path.join(REPO, "arch/x86_64"),
@@ -325,6 +379,10 @@ def main():
             fn = ast_of(path, fname)
             v.append("(* %s:%s *)" % (path, fname))
             v.append(Tr(fn, args).function(coqname))
+        for path, fname, coqname, args, k in CONDS:
+            fn = ast_of(path, fname)
+            v.append("(* %s:%s, condition of if #%d *)" % (path, fname, k))
+            v.append(cond_kernel(fn, coqname, args, k))
         v.append("(* constants (probe compiled against /repo's headers) *)")
         v += probe_consts()
     except Unsupported as e:
